@@ -7,6 +7,8 @@ Ops
 * `init n`                                  `n` configured instruments (keys `0..n-1`), default books
 * `snap k seq | p:a p:a … | p:a …`          `OrderBookEvent::Snapshot(OrderBook::new(seq, bids, asks))` for key `k`
 * `upd  k seq | p:a … | p:a …`              `OrderBookEvent::Update(OrderBook::new(seq, bids, asks))` for key `k`
+* `updr k seq | p:a … | p:a …`              the same with the levels kept in the order written (a deserialised book)
+* `depth k d`                               `snapshot(d)` of the book of key `k` (`snapd` line; `d` a `usize`)
 * `re`                                      `MarketStreamEvent::Reconnecting`
 * `mgr`                                     run the whole stream so far through `OrderBookL2Manager::run`
                                             on fresh books and print every configured book
@@ -50,7 +52,9 @@ def parseBody? (toks : List String) : Option (Nat × Nat × List Level × List L
     match rest.dropWhile (· != "|") with
     | "|" :: askToks =>
       match k.toNat?, seq.toNat?, parseLevels? bidToks, parseLevels? askToks with
-      | some k, some seq, some bids, some asks => some (k, seq, bids, asks)
+      | some k, some seq, some bids, some asks =>
+        -- `sequence: u64`: the harness reports anything else as `bad-op`
+        if seq < 2 ^ 64 then some (k, seq, bids, asks) else none
       | _, _, _, _ => none
     | _ => none
   | _ => none
@@ -94,6 +98,14 @@ def model : Drv MSt where
     | ["mgr"] =>
       let final := managerRun (initBooks s.n) s.stream
       (s, final.map fun (k, b) => "book " ++ toString k ++ " " ++ fmtBook b)
+    | ["depth", k, d] =>
+      match k.toNat?, d.toNat? with
+      | some k, some d =>
+        if d ≥ 2 ^ 64 then (s, ["bad-op"]) else
+        match s.books.lookup k with
+        | none => (s, ["skip"])
+        | some b => (s, ["snapd " ++ fmtBook (b.snapshot d)])
+      | _, _ => (s, ["bad-op"])
     | _ =>
       match parseEvent? toks with
       | none => (s, ["bad-op"])
@@ -126,6 +138,14 @@ def spec : Drv SSt where
     | ["re"] => (s, ["skip"])
     | ["mgr"] =>
       (s, s.maps.map fun (k, m) => "book " ++ toString k ++ " " ++ fmtBook m.book)
+    | ["depth", k, d] =>
+      match k.toNat?, d.toNat? with
+      | some k, some d =>
+        if d ≥ 2 ^ 64 then (s, ["bad-op"]) else
+        match s.maps.lookup k with
+        | none => (s, ["skip"])
+        | some m => (s, ["snapd " ++ fmtBook (m.snapshot d)])
+      | _, _ => (s, ["bad-op"])
     | _ =>
       match parseEvent? toks with
       | none => (s, ["bad-op"])
